@@ -10,7 +10,9 @@
 //   lin:*        real one-step map is linear (pairs, triples, dense)                    [states]
 //   discard:i,d  real discard(d*4^i) == T^(d*4^i) on all 160 unit states + dense states
 //   subseq:i,d   real discard_subsequence(d*4^i) (private; and through the public Initializer
-//                path) == T^(d*4^i*2^67)
+//                path) == T^(d*4^i*2^67); the Initializer is run with 4 seeds x the 64-bit offset
+//                lattice {0, 5, 2^32-1, 2^32, 2^32+5, 2^63, 2^64-1} == T^offset T^(n*2^67) s0(seed),
+//                Weyl == w0 + offset*362437 mod 2^32, state never all-zero
 //   count:*      discard(n) for composite 64-bit n (pairs of digits, all-ones, carries) == T^n
 //   weyl:*       Weyl counter after discard(n) == n*362437 mod 2^32
 //   seq:*        discard(n) == n calls of operator() for all n <= N on dense states
@@ -19,9 +21,15 @@
 //                indices pairwise distinct, segments inside one period
 //   dbl:* flt:*  GenerateCanonical32<double/float> in [0,1): float over ALL 2^32 words,
 //                double over all upper words x extreme lower words (thorough) / strided (quick)
+//   canon:engine:W  the engine-specific path: the REAL engine is forced (Weyl word solved, x.w[1]
+//                solved through a 32x32 F2 system) to yield the boundary words (W, L) next, then
+//                generate_canonical<float/double>(engine), generate_canonical(engine) and the
+//                GenerateCanonical<XorwowRngEngine,T> functor must return the documented function
+//                of the words, inside [0,1), consuming exactly 1 / 2 words
 #include <array>
 #include <cmath>
 #include <cstdint>
+#include <set>
 #include <string>
 #include <vector>
 
@@ -32,6 +40,8 @@
 #include "celeritas/random/XorwowRngEngine.hh"
 #include "celeritas/random/XorwowRngParams.hh"
 #include "celeritas/random/detail/GenerateCanonical32.hh"
+#include "celeritas/random/distribution/GenerateCanonical.hh"
+#include "celeritas/random/RngEngine.hh"
 #include "engine/harness.hh"
 
 using namespace celeritas;
@@ -434,7 +444,11 @@ int main(int argc, char** argv)
                         if (real.st().weylstate != 1234u)
                             R.violation("weyl:subseq", cid, "weyl changed by subsequence skip");
                     }
-                    // public path: Initializer{seed, subsequence, offset}
+                    // public path: Initializer{seed, subsequence, offset}; the 64-bit offset runs
+                    // over a lattice that includes values >= 2^32 (a truncation of the offset on its
+                    // way into discard() leaves the Weyl word right and the xorshift state wrong)
+                    static unsigned long long const offsets[]
+                        = {0ull, 5ull, 0xffffffffull, 1ull << 32, (1ull << 32) + 5, 1ull << 63, ~0ull};
                     for (unsigned seed : {0u, 1u, 12345u, 0xffffffffu})
                     {
                         XorwowRngInitializer init0;
@@ -442,20 +456,35 @@ int main(int argc, char** argv)
                         real.engine() = init0;
                         V160 s0 = real.get();
                         uint32_t w0 = real.st().weylstate;
-                        XorwowRngInitializer init;
-                        init.seed = {seed};
-                        init.subsequence = n;
-                        init.offset = 5;
-                        real.engine() = init;
-                        transition("op_init");
-                        V160 want = P.apply(big_from(5), ref * s0);
-                        if (real.get() != want || real.st().weylstate != uint32_t(w0 + 5 * weyl_inc))
-                            R.violation(fmt("subseq:init[%d]", i), cid,
-                                        fmt("Initializer{seed=%u,subseq=%llu,offset=5}: real %s ref %s",
-                                            seed, n, real.get().str().c_str(), want.str().c_str()));
+                        if (s0.zero())
+                            R.violation("init:zero-state", cid,
+                                        fmt("Initializer{seed=%u}: all-zero xorshift state", seed));
+                        V160 const base = ref * s0;
+                        for (unsigned long long off : offsets)
+                        {
+                            XorwowRngInitializer init;
+                            init.seed = {seed};
+                            init.subsequence = n;
+                            init.offset = off;
+                            real.engine() = init;
+                            transition("op_init");
+                            V160 want = P.apply(big_from(off), base);
+                            uint32_t wwant = uint32_t(w0 + uint32_t(off) * weyl_inc);
+                            R.state(vf::hash_mix(vf::hash_pod(want), off));
+                            if (real.get() != want || real.st().weylstate != wwant)
+                                R.violation(
+                                    off <= 5 ? fmt("subseq:init[%d]", i) : std::string("init:offset"),
+                                    cid,
+                                    fmt("Initializer{seed=%u,subseq=%llu,offset=%llu}: real %s/%08x "
+                                        "ref %s/%08x",
+                                        seed, n, off, real.get().str().c_str(),
+                                        real.st().weylstate, want.str().c_str(), wwant));
+                            if (real.get().zero())
+                                R.violation("init:zero-state", cid, "all-zero xorshift state");
+                        }
                     }
                     R.nontrivial(vf::hash_str(cid));
-                    R.count("evaluations", probe.size() + 4);
+                    R.count("evaluations", probe.size() + 4 * 7);
                     R.end_case();
                 }
             }
@@ -677,6 +706,175 @@ int main(int argc, char** argv)
                     R.end_case();
                 }
             // (max index + 1) * 2^67 <= 2^64 * 2^67 = 2^131 < 2^160 - 1: segments of one cycle
+        }
+
+        // ---- canon: the engine-specific path generate_canonical<T>(XorwowRngEngine&) ----
+        // The real engine is put into a state whose next output word(s) are the chosen boundary
+        // words: with y = T x the first output is weyl + 362437 + y.w[4], so the Weyl word is
+        // solved for W; the second output is weyl + 2*362437 + (T^2 x).w[4], which depends on
+        // x.w[1] through an invertible 32x32 F2-linear map (solved by elimination) and on nothing
+        // that the first output depends on.  Then generate_canonical<float/double>(engine),
+        // generate_canonical(engine) and the GenerateCanonical<XorwowRngEngine,T> functor are
+        // called: the result must lie in [0,1), must be the documented function of the words
+        // (float: W/2^32 rounded to nearest float, clamped below 1; double: ((W<<21)^L)/2^53
+        // exactly - GenerateCanonical32.hh), and exactly one resp. two words must be consumed
+        // (state == T x resp. T^2 x, Weyl advanced by 1 resp. 2 increments).
+        {
+            M160 const& T2 = P.p2[1];
+            // G: x.w[1] -> (T^2 x).w[4]
+            uint32_t G[32];
+            for (int j = 0; j < 32; ++j)
+                G[j] = T2.col[32 + j].w[4];
+            auto solve = [&](uint32_t rhs, uint32_t* sol) {
+                // Gauss-Jordan on [G | I]: find d with XOR_{j in d} G[j] == rhs
+                uint32_t a[32], c[32];
+                for (int j = 0; j < 32; ++j)
+                {
+                    a[j] = G[j];
+                    c[j] = 1u << j;
+                }
+                uint32_t d = 0;
+                int used = 0;
+                for (int b = 0; b < 32; ++b)
+                {
+                    int piv = -1;
+                    for (int j = used; j < 32; ++j)
+                        if ((a[j] >> b) & 1u)
+                        {
+                            piv = j;
+                            break;
+                        }
+                    if (piv < 0)
+                        return false;
+                    std::swap(a[used], a[piv]);
+                    std::swap(c[used], c[piv]);
+                    for (int j = 0; j < 32; ++j)
+                        if (j != used && ((a[j] >> b) & 1u))
+                        {
+                            a[j] ^= a[used];
+                            c[j] ^= c[used];
+                        }
+                    ++used;
+                }
+                // a[] is now a permutation of unit vectors: a[k] has exactly bit k set
+                for (int k = 0; k < 32; ++k)
+                    if ((rhs >> k) & 1u)
+                        d ^= c[k];
+                *sol = d;
+                return true;
+            };
+            std::vector<uint32_t> Ws = {0u, 1u, 0x7fffffffu, 0x80000000u, 0xffffff00u, 0xffffff7fu,
+                                        0xffffff80u, 0xffffff81u, 0xfffffffeu, 0xffffffffu};
+            if (thorough)
+                for (uint32_t k = 2; k < 512; ++k)
+                    Ws.push_back(0xffffffffu - k);
+            uint32_t const Ls[] = {0u, 1u, 0x001fffffu, 0x00200000u, 0x7fffffffu, 0xffe00000u,
+                                   0xffffffffu};
+            float const flt_max = std::nextafterf(1.0f, 0.0f);
+            for (size_t wi = 0; wi < Ws.size(); ++wi)
+            {
+                uint32_t const W = Ws[wi];
+                std::string cid = fmt("canon:engine:W=0x%08x", W);
+                if (!R.want(cid))
+                    continue;
+                R.begin_case(cid, 60);
+                for (uint32_t L : Ls)
+                    for (int si = 0; si < 3; ++si)
+                    {
+                        V160 x = dense[(wi + si) % dense.size()];
+                        uint32_t a = (T * x).w[4];
+                        uint32_t weyl = W - weyl_inc - a;
+                        uint32_t bwant = L - weyl - 2 * weyl_inc;
+                        uint32_t d = 0;
+                        if (!solve(bwant ^ (T2 * x).w[4], &d))
+                        {
+                            R.harness_error("canon: second-word map is singular");
+                            break;
+                        }
+                        x.w[1] ^= d;
+                        V160 const x1 = T * x, x2 = T2 * x;
+                        // the forced words really are what the engine yields
+                        real.set(x, weyl);
+                        {
+                            auto e = real.engine();
+                            uint32_t o1 = e(), o2 = e();
+                            transition("op_step");
+                            transition("op_step");
+                            if (o1 != W || o2 != L)
+                            {
+                                R.violation("canon:forced-words", cid,
+                                            fmt("state %s/%08x: engine yields %08x,%08x, reference "
+                                                "model %08x,%08x",
+                                                x.str().c_str(), weyl, o1, o2, W, L));
+                                continue;
+                            }
+                        }
+                        long double const exact_f = std::ldexp((long double)W, -32);
+                        float want_f = float(exact_f);  // round to nearest (W < 2^32: exact in long double)
+                        if (!(want_f < 1.0f))
+                            want_f = flt_max;
+                        double const want_d
+                            = std::ldexp(double((uint64_t(W) << 21) ^ uint64_t(L)), -53);
+                        auto judge = [&](char const* what, double got, double want, int words) {
+                            transition("op_canonical");
+                            V160 const& xs = words == 1 ? x1 : x2;
+                            uint32_t ws = weyl + words * weyl_inc;
+                            if (!(got >= 0.0 && got < 1.0))
+                                R.violation(fmt("canonical:engine-%s-not-in-[0,1)",
+                                                words == 1 ? "float" : "double"),
+                                            cid,
+                                            fmt("%s with next words 0x%08x,0x%08x -> %.17g", what, W,
+                                                L, got));
+                            if (got != want)
+                                R.violation("canonical:engine-path-value", cid,
+                                            fmt("%s with next words 0x%08x,0x%08x -> %.17g, documented "
+                                                "construction gives %.17g",
+                                                what, W, L, got, want));
+                            if (real.get() != xs || real.st().weylstate != ws)
+                                R.violation("canonical:engine-path-words-consumed", cid,
+                                            fmt("%s did not consume exactly %d word(s): state %s/%08x "
+                                                "expected %s/%08x",
+                                                what, words, real.get().str().c_str(),
+                                                real.st().weylstate, xs.str().c_str(), ws));
+                        };
+                        {
+                            real.set(x, weyl);
+                            auto e = real.engine();
+                            float f = generate_canonical<float>(e);
+                            judge("generate_canonical<float>(xorwow)", f, want_f, 1);
+                        }
+                        {
+                            real.set(x, weyl);
+                            auto e = real.engine();
+                            float f = GenerateCanonical<XorwowRngEngine, float>()(e);
+                            judge("GenerateCanonical<XorwowRngEngine,float>", f, want_f, 1);
+                        }
+                        {
+                            real.set(x, weyl);
+                            auto e = real.engine();
+                            double v = generate_canonical<double>(e);
+                            judge("generate_canonical<double>(xorwow)", v, want_d, 2);
+                        }
+                        {
+                            real.set(x, weyl);
+                            auto e = real.engine();
+                            double v = GenerateCanonical<XorwowRngEngine, double>()(e);
+                            judge("GenerateCanonical<XorwowRngEngine,double>", v, want_d, 2);
+                        }
+                        {
+                            static_assert(std::is_same<real_type, double>::value,
+                                          "harness assumes a double-precision build");
+                            real.set(x, weyl);
+                            RngEngine e(real.params->host_ref(), real.store.ref(), TrackSlotId{0});
+                            real_type v = generate_canonical(e);
+                            judge("generate_canonical(RngEngine)", v, want_d, 2);
+                        }
+                        R.state(vf::hash_mix(vf::hash_pod(x), (uint64_t(W) << 32) | L));
+                        R.count("evaluations", 5);
+                    }
+                R.nontrivial(vf::hash_str(cid));
+                R.end_case();
+            }
         }
     }
 
